@@ -18,6 +18,7 @@ from sqllineage.exceptions import (
     UnsupportedStatementException,
 )
 from sqllineage.utils.entities import AnalyzerContext
+from sqllineage.utils.verif import emit as _verif_emit
 
 
 class SqlFluffLineageAnalyzer(LineageAnalyzer):
@@ -62,6 +63,11 @@ class SqlFluffLineageAnalyzer(LineageAnalyzer):
                 for extractor_cls in BaseExtractor.__subclasses__()
             ]:
                 if extractor.can_extract(statement_segment.type):
+                    _verif_emit(
+                        "analyzer.dispatch",
+                        segment=statement_segment,
+                        extractor=extractor,
+                    )
                     lineage_holder = extractor.extract(
                         statement_segment, AnalyzerContext()
                     )
